@@ -513,6 +513,12 @@ _OS = _OsStub()
 _FILECMP = _FilecmpStub()
 
 
+def handle_of_fd(fd: int) -> FakeTextFile:
+    """The open file behind a descriptor handed out by FakeTextFile.fileno() (used to model a child
+    process that writes to the descriptor)."""
+    return _OS.fs.handles[fd]
+
+
 def install(fs: FakeFs):
     """Rebinds the module attributes through which the string-source code reaches the OS:
     spooled_file._io, frozen.os, equality.filecmp."""
